@@ -603,9 +603,14 @@ func writeEvidence(vd string, pr *Property, res runResult, tier string, seed, di
 		"configurations":      configs,
 		"known_findings_hit":  known,
 		"checker_cmd":         "bin/pscheck -prop " + pr.ID + " -tier " + tier,
-		"trusted_base":        []string{"go/types", "golang.org/x/tools/go/packages", "golang.org/x/tools/go/cfg", "golang.org/x/tools/go/ssa (call graph only)", "the rule tables in /verif/checker"},
+		"trusted_base":        []string{"go/types", "golang.org/x/tools/go/packages", "golang.org/x/tools/go/cfg", "golang.org/x/tools/go/ssa (call graph only)", "the rule tables in /verif/checker", "the helper inliner of /verif/checker/inline.go (used only when the plain evaluation is not clean)"},
 		"exhaustive":          true,
 		"notes":               res.Note,
+	}
+	cov["view"] = "plain: the rules were evaluated on the tree as written"
+	if len(res.Canon) > 0 {
+		cov["view"] = "canonical: the plain evaluation was not clean; the verdict was obtained on the semantically equivalent in-memory view with these private helpers inlined (type-checked, nothing executed)"
+		cov["canonical_view_inlined"] = res.Canon
 	}
 	if audit != nil {
 		cov["mutation_self_audit"] = audit
